@@ -3,6 +3,7 @@ package main
 import (
 	"fmt"
 	"go/token"
+	"go/types"
 	"math"
 	"sort"
 	"strings"
@@ -190,6 +191,27 @@ func checkC08(c *Check, p *Program) {
 			c.Fail("C08.range", "dpt "+rs.key+" registered", "", "type not in the registry")
 			continue
 		}
+		// one-octet types: the decoder's complete octet -> value table (exact, shape independent)
+		if rs.field == "" {
+			var dsites []finSite
+			for _, st := range receiverStores(dt.Unpack) {
+				dsites = append(dsites, finSite{st.Val, st.Block()})
+			}
+			if dtab, okD := finFunc(dsites); okD {
+				bad := -1
+				for x := 0; x < 256; x++ {
+					if float64(dtab[x]) < rs.iv.lo || float64(dtab[x]) > rs.iv.hi {
+						bad = x
+					}
+				}
+				why := ""
+				if bad >= 0 {
+					why = fmt.Sprintf("octet %d decodes to %d, outside the documented range %s", bad, dtab[bad], fivString(rs.iv))
+				}
+				c.Decide(bad < 0, "C08.range", dptName(dt)+" "+rs.what, p.Pos(dt.Unpack.Pos()), "every octet decodes into "+fivString(rs.iv), why)
+				continue
+			}
+		}
 		checkStoredRange(c, p, dt, rs)
 	}
 	// all two-octet floats: within the format's limits and equal to the Pack clamp
@@ -212,6 +234,15 @@ func checkC08(c *Check, p *Program) {
 		okR := true
 		why := ""
 		for _, st := range receiverStores(dt.Unpack) {
+			if set, okF := finSetAt(st.Val, st.Block()); okF {
+				if in, bad := finSetWithin(set, [][2]int{{0, 63}, {128, 191}}); !in {
+					okR, why = false, fmt.Sprintf("a successful decode can store the value %d at %s", bad, p.InstrPos(st))
+				}
+				continue
+			}
+			if k, isK := constInt(st.Val); isK && (k >= 0 && k <= 63 || k >= 128 && k <= 191) {
+				continue
+			}
 			for _, iv := range edgeIntervals(st.Val, st.Block()) {
 				if !(iv.within(fiv{0, 63}, 0) || iv.within(fiv{128, 191}, 0)) {
 					okR, why = false, "a successful decode can store a value in "+fivString(iv)+" at "+p.InstrPos(st)
@@ -353,10 +384,24 @@ func isValidFieldRange(p *Program, isv *ssa.Function, field string) (fiv, bool) 
 						continue
 					}
 					found = true
+					isInt := false
+					if bt, ok := x.Type().Underlying().(*types.Basic); ok && bt.Info()&types.IsInteger != 0 {
+						isInt = true
+					}
 					switch op {
-					case token.LEQ, token.LSS:
+					case token.LEQ:
 						out.hi = math.Min(out.hi, k)
-					case token.GEQ, token.GTR:
+					case token.LSS:
+						if isInt {
+							k = math.Ceil(k) - 1
+						}
+						out.hi = math.Min(out.hi, k)
+					case token.GEQ:
+						out.lo = math.Max(out.lo, k)
+					case token.GTR:
+						if isInt {
+							k = math.Floor(k) + 1
+						}
 						out.lo = math.Max(out.lo, k)
 					}
 				}
